@@ -16,6 +16,7 @@ structure St where
   stats : Stats := {}
   h : Nat := 1
   cls : String := ""
+  histLog : List String := []       -- the operations of the current history (short form), for the failing-input report
   vec : Array (Vec F) := Array.replicate 4 Vec.default
   diag : Array (Diag F) := Array.replicate 4 Diag.default
   tri : Array (Tri F) := Array.replicate 4 Tri.default
@@ -119,7 +120,11 @@ def opStep (st : St) (toks : List String) : IO St := do
       let rhs := parseFloats ((kv rest "rhs").getD ""); let x := parseFloats ((kv rest "x").getD "")
       let r := Tri.solve st.tri[k]! rhs
       let stats ← check st.stats (fcloseList r.2 x) fun _ => s!"tri solve slot {k}: model x={r.2} impl x={x}"
-      return { st with stats := stats, tri := st.tri.set! k r.1 }
+      let mut st := { st with stats := stats, tri := st.tri.set! k r.1 }
+      if !(fcloseList r.2 x) then
+        IO.println s!"ORACLE C15 after this history of constructions, copies, moves and solves the tridiagonal solver in slot {k} no longer returns the solution of the system it was given (as an object that was only ever constructed and filled does): history = [{"; ".intercalate (st.histLog.drop (st.histLog.length - 16))}]"
+        st := { st with oracleFails := st.oracleFails + 1 }
+      return st
     | "csr", "new" =>
       let n := toNat! (rest.headD "0"); let A := mkCSR n rest
       let (h1, v) := alloc st.h A.values.length (0.0 : F); let (h2, c) := alloc h1 A.values.length (0 : Int); let (h3, r) := alloc h2 (n + 1) (0 : Int)
@@ -138,7 +143,11 @@ def opStep (st : St) (toks : List String) : IO St := do
       let scale := (x.map Float.abs).foldl max 0.0
       let ok := xm.length == x.length ∧ (xm.zip x).all fun p => (p.1 - p.2).abs ≤ 1e-9 * scale
       let stats ← check st.stats ok fun _ => s!"lu solve slot {k}"
-      return { st with stats := stats }
+      let mut st := { st with stats := stats }
+      if !ok then
+        IO.println s!"ORACLE C15 after this history of constructions, copies, moves and solves the sparse LU solver in slot {k} no longer returns the solution of the system it was given: history = [{"; ".intercalate (st.histLog.drop (st.histLog.length - 16))}]"
+        st := { st with oracleFails := st.oracleFails + 1 }
+      return st
     | _, _ => IO.println s!"REJECT op {toks}"; return { st with stats := { st.stats with rejects := st.stats.rejects + 1 } }
   | _ => return st
 
@@ -202,7 +211,8 @@ def step (st : St) (line : String) : IO St := do
     return { ({} : St) with stats := { st.stats with cases := st.stats.cases + 1 }, cls := cls, oracleFails := st.oracleFails, ops := st.ops, copiesAfterSolve := st.copiesAfterSolve, ub := st.ub, opKinds := st.opKinds, sample := sample }
   | "OP" :: _ =>
     -- before the operation the previous observations become "before" values
-    opStep st toks
+    let short := " ".intercalate ((toks.drop 1).take 4 |>.map fun t => (t.take 24).toString)
+    opStep { st with histLog := st.histLog ++ [short] } toks
   | "OBS" :: _ => obsStep st line toks
   | "ALIAS" :: _ =>
     IO.println s!"ORACLE C15 two live objects share storage: {line.trimAscii} after `{st.lastOp} {st.lastK} {st.lastJ}`"
